@@ -126,22 +126,32 @@ def run_property(mod, tier, seed, jobs=None):
     errors = []
     work = [(mod.__name__, s, tier, seed) for s in shards]
     if jobs <= 1 or len(shards) <= 1:
-        results = map(_worker, work)
-        pool = None
-    else:
-        ctx = multiprocessing.get_context("fork")
-        pool = ctx.Pool(min(jobs, len(shards)), maxtasksperchild=None)
-        results = pool.imap_unordered(_worker, work, chunksize=1)
-    try:
-        for status, res in results:
+        for status, res in map(_worker, work):
             if status == "ok":
                 total.merge(res)
             else:
                 errors.append(res)
-    finally:
-        if pool is not None:
-            pool.close()
-            pool.join()
+    else:
+        # (an executor, not multiprocessing.Pool: a Pool whose worker is killed - by the kernel's
+        # OOM killer, say - waits for the lost task for ever; the executor reports it)
+        import concurrent.futures as cf
+
+        ctx = multiprocessing.get_context("fork")
+        with cf.ProcessPoolExecutor(min(jobs, len(shards)), mp_context=ctx) as ex:
+            futs = [ex.submit(_worker, w) for w in work]
+            for fut in cf.as_completed(futs):
+                try:
+                    status, res = fut.result()
+                except cf.process.BrokenProcessPool:
+                    errors.append("a worker process died abruptly (killed? out of memory?): the exploration is incomplete")
+                    break
+                except BaseException:
+                    errors.append(traceback.format_exc())
+                    continue
+                if status == "ok":
+                    total.merge(res)
+                else:
+                    errors.append(res)
     wall = time.time() - t0
     if errors:
         for e in errors[:5]:
